@@ -12,6 +12,7 @@ from pyvc.world import ListOf
 from . import W
 from .vectorise import _prim_setup, COMMON as _VC
 from . import vectorise, folds  # noqa
+from .folds import folds as _folds, scans as _scans  # noqa
 
 COMMON = dict(executor="template", fuel=0, frame_check=False, may_raise=True, props=["C14"])
 
@@ -79,4 +80,172 @@ W.contract(
     ensures=["len(items(result)) >= len(lhs)", "len(items(result)) >= len(rhs)"],
     note="zip: pair j needs at most j+1 items of either side",
     **COMMON,
+)
+
+
+# ---------------------------------------------------------------- the same generators against their defining recursion (C16)
+from pyvc.templates import uf  # noqa: E402
+from pyvc.sym import VAL_SORT  # noqa: E402
+
+SUB = UFn("app_subtract", [VAL, VAL], VAL, note="subtract(a, b): the element applied to two items")
+SUB.z = uf("app_subtract", [VAL_SORT] * 2, VAL_SORT)  # the symbol the executor uses for the uncontracted call
+W.clause_globals.update(sub2=SUB)
+
+
+@W.spec([SEQ(VAL)], SEQ(VAL))
+def dl(v):
+    """forward differences: [v[1]-v[0], v[2]-v[1], ...]"""
+    return [] if len(v) <= 1 else dl(v[:-1]) + [sub2(v[-1], v[-2])]
+
+
+FCOMMON = dict(executor="template", fuel=0, frame_check=False, may_raise=True, props=["C16"])
+W.contract(
+    "vyxal/elements.py::deltas#law",
+    params=dict(lhs=ListOf(VAL), ctx=VAL), result=VAL, yields=VAL, setup=_prim_setup("deltas"),
+    requires=["len(lhs) >= 1"],
+    ensures=["items(result) == dl(lhs)"],
+    loops={0: dict(peel=1, inv=["_k >= 1", "prev == lhs[_k - 1]", "_yielded == dl(lhs[:_k])"],
+                   hints_init=["unfold(dl(lhs[:1]))"],
+                   hints_end=["unfold(dl(lhs[:_k]))"],
+                   asserts_end=["lhs[:_k][:-1] == lhs[:_k - 1]", "lhs[:_k][-1] == lhs[_k - 1]", "lhs[:_k][-2] == lhs[_k - 2] or _k < 2"])},
+    asserts=["lhs[:len(lhs)] == lhs"],
+    note="deltas: item j is subtract(lhs[j+1], lhs[j])",
+    **FCOMMON,
+)
+
+W.contract(
+    "vyxal/elements.py::vy_map#law",
+    params=dict(lhs=ListOf(VAL), rhs=VAL, ctx=VAL), result=VAL, yields=VAL, setup=_setup_map,
+    ensures=["items(result) == map_l(rhs, lhs)"],
+    loops={0: dict(inv=["_yielded == map_l(rhs, lhs[:_k])"],
+                   hints_init=["unfold(map_l(rhs, lhs[:0]))"],
+                   hints_end=["unfold(map_l(rhs, lhs[:_k]))"],
+                   asserts_end=["lhs[:_k][:-1] == lhs[:_k - 1]", "lhs[:_k][-1] == lhs[_k - 1]"])},
+    asserts=["lhs[:len(lhs)] == lhs"],
+    note="map: item j is the function applied to lhs[j]",
+    **FCOMMON,
+)
+
+
+class _ListVal(UFn):
+    """clause function listval(s): the list value whose items are s"""
+
+    def __init__(self):
+        self.name = "listval"
+
+    def apply(self, ex, args, kwargs):
+        return ex.to_val(ex.to_sv(args[0], SEQ(VAL)))
+
+
+DC = UFn("app_deep_copy", [VAL], VAL, note="deep_copy(x): a copy of one item")
+DC.z = uf("app_deep_copy", [VAL_SORT], VAL_SORT)
+W.clause_globals.update(listval=_ListVal(), dc1=DC)
+
+
+@W.spec([SEQ(VAL)], SEQ(VAL))
+def mapdc(v):
+    return [] if len(v) == 0 else mapdc(v[:-1]) + [dc1(v[-1])]
+
+
+@W.spec([SEQ(VAL)], SEQ(VAL))
+def pf(v):
+    """the non-empty prefixes in order of length, each a list of copies of its items"""
+    return [] if len(v) == 0 else pf(v[:-1]) + [listval(mapdc(v))]
+
+
+W.contract(
+    "vyxal/helpers.py::prefixes#law",
+    params=dict(lhs=ListOf(VAL), ctx=VAL), result=VAL, yields=VAL, setup=_prim_setup("prefixes"),
+    ensures=["items(result) == pf(lhs)"],
+    loops={0: dict(inv=["temp == mapdc(lhs[:_k])", "_yielded == pf(lhs[:_k])"], types={"temp": SEQ(VAL)},
+                   hints_init=["unfold(pf(lhs[:0]))", "unfold(mapdc(lhs[:0]))"],
+                   hints_end=["unfold(pf(lhs[:_k]))", "unfold(mapdc(lhs[:_k]))"],
+                   asserts_end=["lhs[:_k][:-1] == lhs[:_k - 1]", "lhs[:_k][-1] == lhs[_k - 1]"])},
+    asserts=["lhs[:len(lhs)] == lhs"],
+    note="prefixes: item j is the list of (copies of) lhs[0..j]; assumes the consumer snapshots a yielded list at the yield (LazyList.__next__ -> vyxalify copies lists), since the generator yields the same growing list object",
+    **FCOMMON,
+)
+
+
+@W.spec([SEQ(VAL)], SEQ(VAL))
+def uq(v):
+    """first occurrences, in order"""
+    return [] if len(v) == 0 else (uq(v[:-1]) + [v[-1]] if v[-1] not in v[:-1] else uq(v[:-1]))
+
+
+W.lemma(
+    "uq_has_the_same_members", vars=dict(v=SEQ(VAL), x=VAL),
+    goal="(x in uq(v)) == (x in v)",
+    ih=[dict(at=dict(v="v[:-1]"), measure="len(v)", when="len(v) > 0")],
+    hints=["unfold(uq(v))"], asserts=["len(v) == 0 or v == v[:-1] + [v[-1]]"],
+    fuel=0, props=["C16"], executor="template",
+    note="uniquify neither drops nor invents a value",
+)
+
+W.contract(
+    "vyxal/elements.py::uniquify#law",
+    params=dict(lhs=ListOf(VAL), ctx=VAL), result=VAL, yields=VAL, setup=_prim_setup("uniquify"),
+    ensures=["items(result) == uq(lhs)"],
+    loops={1: dict(inv=["seen == uq(t[:_k])", "_yielded == uq(t[:_k])", "t == lhs"], types={"seen": SEQ(VAL)},
+                   hints_init=["unfold(uq(t[:0]))"],
+                   hints_end=["unfold(uq(t[:_k]))", "uq_has_the_same_members(t[:_k - 1], t[_k - 1])"],
+                   asserts_end=["t[:_k][:-1] == t[:_k - 1]", "t[:_k][-1] == t[_k - 1]"])},
+    asserts=["lhs[:len(lhs)] == lhs"],
+    note="uniquify (list branch): first occurrences in order; `in` on a list of values is read as membership up to equality of values",
+    **FCOMMON,
+)
+
+
+def _setup_with_fn(shape, **names):
+    """bind clause names to the value the executor gives a module-level function passed as an argument"""
+    import ast as _ast
+
+    base = _prim_setup(shape)
+
+    def setup(ex, fr):
+        base(ex, fr)
+        for clause_name, global_name in names.items():
+            fr.env[clause_name] = ex.to_val(ex.eval(_ast.parse(global_name, mode="eval").body, fr))
+
+    return setup
+
+
+W.contract(
+    "vyxal/elements.py::vy_sum#law",
+    params=dict(lhs=ListOf(VAL), ctx=VAL), result=VAL, setup=_setup_with_fn("sum", the_add="add"),
+    requires=["len(lhs) >= 1"],
+    ensures=["result == folds(the_add, lhs)"],
+    note="sum of a non-empty list is the left fold of the element `add` (wrapper obligation over foldl's contract)",
+    **FCOMMON,
+)
+
+W.contract(
+    "vyxal/elements.py::cumulative_sum#law",
+    params=dict(lhs=ListOf(VAL), ctx=VAL), result=VAL, setup=_setup_with_fn("cumsum", the_add="add"),
+    requires=["len(lhs) >= 1"],
+    ensures=["items(result) == scans(the_add, lhs)"],
+    note="cumulative sums are the left folds of the non-empty prefixes (wrapper obligation over scanl's contract)",
+    **FCOMMON,
+)
+
+
+@W.spec([SEQ(VAL), SEQ(VAL)], SEQ(VAL))
+def il(a, b):
+    """interleave: a0 b0 a1 b1 ..., then the rest of the longer one"""
+    return b if len(a) == 0 else [a[0]] + il(b, a[1:])
+
+
+_RL = "it_src(lhs_iter)[it_pos(lhs_iter):]"
+_RR = "it_src(rhs_iter)[it_pos(rhs_iter):]"
+W.contract(
+    "vyxal/elements.py::interleave#law",
+    params=dict(lhs=ListOf(VAL), rhs=ListOf(VAL), ctx=VAL), result=VAL, yields=VAL, setup=_prim_setup("interleave"),
+    ensures=["items(result) == il(lhs, rhs)"],
+    at_yield=["it_pos(lhs_iter) <= len(_yielded) or it_pos(rhs_iter) >= len(rhs)", "it_pos(rhs_iter) <= len(_yielded) or it_pos(lhs_iter) >= len(lhs)"],
+    loops={0: dict(inv=[f"_yielded + il({_RL}, {_RR}) == il(lhs, rhs)", "it_src(lhs_iter) == lhs", "it_src(rhs_iter) == rhs",
+                        "it_pos(lhs_iter) + it_pos(rhs_iter) == len(_yielded)", "it_pos(lhs_iter) == it_pos(rhs_iter)"],
+                   hints=[f"unfold(il({_RL}, {_RR}))", f"unfold(il({_RR}, {_RL}[1:]))", f"unfold(il({_RL}[1:], {_RR}))"])},
+    hints=[],
+    note="interleave (list, list): alternate items, then the rest of the longer list; while both sides last, item j needs at most j+1 items of either side",
+    props=["C16", "C14"], **{k: v for k, v in FCOMMON.items() if k != "props"},
 )
